@@ -22,6 +22,39 @@ type rawPeer struct {
 	lastTx  time.Duration
 	active  bool
 	kaGen   int
+	// script pacing
+	shift    time.Duration // how much the script has been held back so far
+	awaiting byte          // reply type a conforming client would wait for before going on (0 = none)
+	awaitTil time.Duration
+	polls    int
+}
+
+// scheduleOp arms op j at its planned time plus the accumulated shift.
+func (p *rawPeer) scheduleOp(j int) {
+	if j >= len(p.plan.Ops) {
+		return
+	}
+	w := p.s.W
+	at := ms(p.plan.Ops[j].AtMs) + p.shift
+	if at < w.Now() {
+		at = w.Now()
+	}
+	w.At(at, fmt.Sprintf("peerop:%s:%05d", p.plan.Name, j), func() { p.runOp(j) })
+}
+
+func (p *rawPeer) runOp(j int) {
+	w := p.s.W
+	op := p.plan.Ops[j]
+	if p.awaiting != 0 && !op.NoWait && !p.plan.Policy.NoWait && w.Now() < p.awaitTil && !p.isSilent() {
+		// hold the script: poll once per millisecond (odd offset: never ties with code timers)
+		p.polls++
+		p.shift += time.Millisecond
+		w.At(w.Now()+time.Millisecond, fmt.Sprintf("peerop:%s:%05d:hold%06d", p.plan.Name, j, p.polls), func() { p.runOp(j) })
+		return
+	}
+	p.awaiting = 0
+	p.send(op.Pkt, "op")
+	p.scheduleOp(j + 1)
 }
 
 func (s *Sim) newRawPeer(i int, pp *PeerPlan) *rawPeer {
@@ -56,6 +89,17 @@ func (p *rawPeer) send(pk refsn.Pkt, why string) {
 	case refsn.DISCONNECT:
 		p.active = false
 	}
+	if why == "op" && pk.Raw == nil {
+		switch {
+		case pk.Type == refsn.CONNECT && pk.ProtocolID == 1:
+			p.awaiting = refsn.CONNACK
+		case pk.Type == refsn.DISCONNECT && pk.HasDur && pk.Duration > 0:
+			p.awaiting = refsn.DISCONNECT
+		case pk.Type == refsn.PINGREQ && len(pk.Data) > 0:
+			p.awaiting = refsn.PINGRESP
+		}
+		p.awaitTil = p.s.W.Now() + 20*time.Second
+	}
 	p.link.c2g(b)
 	p.armKA()
 }
@@ -84,6 +128,9 @@ func (p *rawPeer) recv(b []byte) {
 	w.Log("peer:"+p.plan.Name+"<", "rx", b, desc, int64(pk.Type))
 	if err != nil || p.isSilent() {
 		return
+	}
+	if pk.Type == p.awaiting {
+		p.awaiting = 0
 	}
 	pol := &p.plan.Policy
 	switch pk.Type {
